@@ -299,7 +299,7 @@ void vf_case(uint64_t, vf_rng *r)
 
 		vf_at("config_parser::set_format");
 		vf_count("config_parser::set_format", 1);
-		ok = p.set_format(c.fmt_null ? 0 : c.fmt);
+		ok = p.set_format(c.fmt_null ? 0 : c.desc);
 		VF_CHECK(ok == (c.known != 0), "model:set_format:result", "%s: set_format returned %d, family '%c' is %s",
 		         desc, (int) ok, c.type, c.known ? "known" : "unknown");
 		vf_count(ok ? "set_format:accepted" : "set_format:refused", 1);
